@@ -452,7 +452,9 @@ class FlatLinearOperator(ScipyLinearOperator):
                 size = sl.stop - sl.start
                 self.shape = (size, size)
             else:
-                self._mask = np.all(self.leg.to_qflat() == value[np.newaxis, :], axis=1)
+                # `value` is the qtotal of the vector: the leg charge of its non-zero entries is qconj * value
+                leg_charge = self.leg.chinfo.make_valid(self.leg.qconj * value)
+                self._mask = np.all(self.leg.to_qflat() == leg_charge[np.newaxis, :], axis=1)
                 self.shape = tuple([np.sum(self._mask)] * 2)
         else:
             if self.compact_flat:
@@ -516,7 +518,8 @@ class FlatLinearOperator(ScipyLinearOperator):
             return res
         else:
             leg = self.leg
-            ch_leg = npc.LegCharge.from_qflat(leg.chinfo, self.possible_charge_sectors, qconj=-leg.qconj)
+            # one 'charge' index per block of `leg`, in the order of the blocks (which need not be sorted)
+            ch_leg = npc.LegCharge.from_qflat(leg.chinfo, leg.charges, qconj=-leg.qconj)
             res = npc.zeros([self.leg, ch_leg], vec.dtype, labels=[self.vec_label, 'charge'])
             res._qdata = np.repeat(np.arange(leg.block_number, dtype=np.intp), 2).reshape(leg.block_number, 2)
             for qi in range(leg.block_number):
@@ -554,7 +557,8 @@ class FlatLinearOperator(ScipyLinearOperator):
                 npc_vec.legs[0] = npc_vec.legs[0].to_LegCharge()
             return npc_vec[self._mask].to_ndarray()
         else:
-            npc_vec.itranspose([self.vec_label, 'charge'])
+            ch_axis = npc_vec.get_leg_index('charge')  # (the other leg has any label if `vec_label` is None)
+            npc_vec.itranspose([1 - ch_axis, ch_axis])
             res = np.zeros([self.leg.ind_len], npc_vec.dtype)
             leg = self.leg
             for qinds, data in zip(npc_vec._qdata, npc_vec._data):
